@@ -28,7 +28,8 @@ import os
 from typing import Any, Dict, List, Optional, Tuple
 
 from dsmc import hist
-from dsmc.hist import DAY_MS, DEFAULT_PREV_MAX, FULL_ALPHABET, PREV_MAX_PROP, STEP_BACK_OPS, Transition, variant
+from dsmc.hist import (DAY_MS, DEFAULT_PREV_MAX, FULL_ALPHABET, PREV_MAX_PROP, REREGISTER_OPS, STEP_BACK_OPS,
+                       Transition, variant)
 from dsmc.report import Report, pmap
 
 PROP = "C15"
@@ -99,6 +100,15 @@ def oracle(T: Transition) -> None:
         inv("sequence_number_exceeds_last", seqs_in_commit_order=seqs, last_sequence_number=last)
     if last < mp.last_seq:
         inv("last_sequence_number_decreased", before=mp.last_seq, after=last)
+    # commit order includes the snapshots that have since been deleted or expired: a new commit must be
+    # numbered above every number ever issued, not only above the retained ones
+    issued = [c["seq"] for c in mp.commits if c["seq"] is not None]
+    for n in T.new_ids:
+        rep.add("new_sequence_numbers_compared_with_all_ever_issued")
+        sq = post.byid[n].seq if n in post.byid else m.byid[n]["seq"]
+        if issued and (sq is None or sq <= max(issued)):
+            inv("sequence_number_reused", new=sq, highest_ever_issued=max(issued),
+                highest_retained=max([x for x in seqs if x is not None and x != sq] or [None], key=lambda x: (x is not None, x)))
     # 4 -- snapshot log
     log_ids = [e.get("snapshot_id") for e in md.get("snapshot_log", [])]
     if any(i not in rset for i in log_ids):
@@ -110,12 +120,16 @@ def oracle(T: Transition) -> None:
     for s in post.snaps:
         for e in s.entries:
             org = m.origin.get(e["file_path"])
-            if org is None or not (e["status"] == 0 or s.id != org[0]):
+            again = m.readded.get(e["file_path"], ())
+            if org is None or not (e["status"] == 0 or s.id not in [org[0]] + [a[0] for a in again]):
                 continue
             rep.add("carried_entries_checked")
             if e["status"] == 0:
                 rep.add("existing_status_entries_checked")
             fseq = e["file_sequence_number"] if e["file_sequence_number"] is not None else e["sequence_number"]
+            if (e["snapshot_id"], fseq) in again and (e["sequence_number"] is None or e["sequence_number"] == fseq):
+                rep.add("carried_entries_of_a_second_registration_checked")
+                continue
             if e["snapshot_id"] != org[0]:
                 inv("carried_entry_adding_snapshot_changed", status=e["status"], in_snapshot_commit_index=m.idx(s.id),
                     original_commit_index=m.idx(org[0]) if org[0] in m.byid else None)
@@ -287,6 +301,9 @@ def variants(tier: str) -> List[Dict[str, Any]]:
     # bounds lowered on a live table whose snapshot list / metadata log already exceed them
     V.append(variant("tick-base4-late-props", clock="TICK", props=True, props_late=True, depth=3 if q else 4,
                      alphabet=C15_ALPHABET, base=[("append",), ("append",), ("append",), ("append",)], **one))
+    # a data file registered twice (two manifests list it): deletes must still remove exactly the named file
+    rr = (("append",), ("delete_file", "oldest"), ("delete_file", "newest"), ("expire", "all_but_current")) + REREGISTER_OPS
+    V.append(variant("tick-reregister", clock="TICK", depth=4 if q else 5, alphabet=rr, base=[("append",)], **one))
     return V
 
 
@@ -299,7 +316,7 @@ def run(tier: str, seed: int) -> Report:
     rep.cov["variants"] = len(V)
     rep.cov["max_depth"] = max(v["depth"] for v in V)
     rep.cov["depth_per_variant"] = {v["name"]: v["depth"] for v in V}
-    rep.cov["alphabet"] = [hist.op_label(o) for o in C15_ALPHABET + STEP_BACK_OPS]
+    rep.cov["alphabet"] = [hist.op_label(o) for o in C15_ALPHABET + STEP_BACK_OPS + REREGISTER_OPS]
     if tier == "thorough":
         for v in (V[1], V[4]):
             d = hist.differential(PROP, tier, seed, v, 4, "checks.c15", res["visited"][v["name"]], set(rep.violations), rep)
@@ -340,7 +357,7 @@ def replay(case: Dict[str, Any]) -> Dict[str, Any]:
         rep.merge(e4_worker((case.get("tier", "quick"), 0, n, [parents[1]])))
     else:
         v = dict(det["variant"])
-        v["alphabet"] = list(C15_ALPHABET + STEP_BACK_OPS)
+        v["alphabet"] = list(C15_ALPHABET + STEP_BACK_OPS + REREGISTER_OPS)
         ops = [hist.parse_op(x) for x in det["history"]]
         cwd = os.getcwd()
         try:
